@@ -18,6 +18,8 @@ def owner(clause, cause):
 
 
 def run_phase(ctx, res, prop, n_quick=36, n_thorough=400):
+    import time as _time0
+    _start = _time0.time()
     r = tlc.check("Manager", "MC_Manager.cfg", workers=2, coverage=True)
     if r.violated:
         raise core.MachineryError("Manager composition model violates %s" % r.violated)
@@ -51,15 +53,32 @@ def run_phase(ctx, res, prop, n_quick=36, n_thorough=400):
     # TCPSigner managers take platform-specific branches for the same requests
     from . import lines as _lines
     good = sorted(n for n in _lines.CLASSES if n.startswith("ok_"))
+    hung_classes = []
+    res.coverage["line_classes_never_answered"] = hung_classes
     for plat in ("sgx", "tcp", "ledger"):
-        names = good + rng.sample(sorted(set(_lines.CLASSES) - set(good)), ctx.pick(10, 60))
+        others = sorted(set(_lines.CLASSES) - set(good))
+        # (C03 sends every class through a manager process of its own on one platform: a request the manager never
+        # finishes with is seen there within the client's time-out, and only costs that process)
+        names = good + (others if (prop == "C03" and plat == "ledger") else rng.sample(others, ctx.pick(10, 60)))
         rng.shuffle(names)
         given = [(n, _lines.CLASSES[n](random.Random("mp:%s:%s" % (n, ctx.seed)))) for n in names]
-        ev, inf = procmgr.run_lifetime(ctx.scratch, "%s_all_%s" % (prop, plat), True, ["client"] * len(given), False, rng,
-                                       start_env=(dict(procmgr.GOOD_ENV), "f"), plat=plat, client_lines=given)
-        tid = len(traces) + 1
-        traces.append({"id": "M%d" % tid, "v1": False, "ev": ev})
-        info["M%d" % tid] = inf
+        part = 0
+        while given and part < 80:
+            ev, inf = procmgr.run_lifetime(ctx.scratch, "%s_all_%s_%d" % (prop, plat, part), True, ["client"] * len(given),
+                                           False, rng, start_env=(dict(procmgr.GOOD_ENV), "f"), plat=plat,
+                                           client_lines=list(given), client_timeout=12)
+            if inf.get("hung_at") is not None:
+                hung_classes.append(inf["labels"][inf["hung_at"]])
+            inf["labels"] = inf["labels"][:3] + ["... %d lines" % len(given)] + \
+                ([inf["labels"][inf["hung_at"]]] if inf.get("hung_at") is not None else [])
+            inf["causes"] = inf["causes"][:3]
+            tid = len(traces) + 1
+            traces.append({"id": "M%d" % tid, "v1": False, "ev": ev})
+            info["M%d" % tid] = inf
+            n_conn = sum(1 for e in ev if e["k"] == "conn")
+            # go on with what was not sent yet (after a request without an answer, or a manager that stopped)
+            given = given[max(1, n_conn):] if (inf.get("hung_at") is not None or n_conn < len(given)) else []
+            part += 1
     for j in range(ctx.pick(6, 60)):
         v1 = (j % 4 == 3)
         ev, inf = procmgr.run_lifetime(ctx.scratch, "%s_ur_%d" % (prop, j), True, [], v1, rng,
@@ -113,7 +132,13 @@ def run_phase(ctx, res, prop, n_quick=36, n_thorough=400):
             tid = len(traces) + 1
             traces.append({"id": "M%d" % tid, "v1": False, "ev": ev})
             info["M%d" % tid] = inf
+    import time as _time
+    _t0 = _time.time()
+    res.coverage["process_phase_lifetimes_wall_s"] = round(_t0 - _start, 1)
+    res.coverage["slowest_process_lifetimes"] = sorted(((x.get("wall_s", 0), x.get("tag", "")) for x in info.values()),
+                                                       reverse=True)[:6]
     verdicts, stats = tlc.validate("TraceManager", "Trace_Manager.cfg", traces, shards=4)
+    res.coverage["process_phase_validation_wall_s"] = round(_time.time() - _t0, 1)
     res.checker_cmds.append("tlc -workers 1 -config Trace_Manager.cfg TraceManager (x%d shards)" % stats["jvms"])
     accepted = 0
     for t in traces:
